@@ -833,6 +833,10 @@ SPECS = [
          state_names={"stats.cnt": "cnt", "stats.lastf": "lastf"},
          calls={"self.can_trigger": ("gen_can_trigger fc fp ws we {stats.cnt} {stats.lastf}", ["Z"], "bool")},
          stmt_calls={"self.__stats.fire": dict(fn="gen_fire {stats.cnt} {stats.lastf}", args=["Z"], updates=["stats.cnt", "stats.lastf"])}),
+    dict(group="Limits", name="gen_acquire", path="processor/context/action_context.py", cls="ActionContext", func="acquire",
+         params="(fc fp ws we cnt lastf ts : Z)", ret="(Z * Z) * bool", args=["self"],
+         env={"self.trigger_context.ts": ("ts", "Z")},
+         calls={"self.location_action.try_trigger": ("gen_try_trigger fc fp ws we cnt lastf", ["Z"], "((Z * Z) * bool)")}),
     # ---- trigger placement (C03)
     dict(group="Match", name="gen_line_at_location", path="api/tracepoint/trigger.py", cls="LineLocation", func="at_location",
          params="(path : str) (line_cfg : Z) (event file : str) (line : Z) (function_name : str)", ret="bool",
@@ -1178,8 +1182,12 @@ def translate(spec):
     for n in sorted(set(fn.notes)):
         text += "(* note: %s *)\n" % n
     text += "Definition %s %s : %s :=\n  %s.\n\n" % (spec["name"], spec["params"], spec["ret"], body)
+    declared = {k: v[1] for k, v in spec.get("env", {}).items()}
+    declared.update({k: v[1] for k, v in spec.get("state", {}).items()})
+    declared.update({k + "()": "%s -> %s" % (", ".join(v[1]) or "()", v[2]) for k, v in spec.get("calls", {}).items()})
+    declared.update({k + "()": "effect on " + ", ".join(v["updates"]) for k, v in spec.get("stmt_calls", {}).items()})
     return text, dict(function="%s:%s%s" % (spec["path"], (spec["cls"] + "." if spec["cls"] else ""), spec["func"]), line=fdef.lineno,
-                      notes=sorted(set(fn.notes)))
+                      notes=sorted(set(fn.notes)), declared=declared)
 
 
 def generate():
